@@ -1,4 +1,4 @@
 SPECIFICATION Spec
 ACTION_CONSTRAINT EmitEdge
-INVARIANT Inv Monotone SignalsAgree
+INVARIANT Inv Monotone SignalsAgree StructInv CrossInv
 CHECK_DEADLOCK FALSE
